@@ -897,7 +897,8 @@ fn analyze_partial_pattern(
 
     // Check if the original value type could be multiple types (for adding type checks)
     let value_type_sources = extract_field_sources(program, value_type_id);
-    let needs_type_check = value_type_sources.len() > 1;
+    let needs_type_check =
+        value_type_sources.len() > 1 || has_non_tuple_variant(program, value_type_id);
 
     // Narrowed type accumulated per matchable variant, reconstructed with field-level precision so
     // a later branch's complement reflects the field check (e.g. `mode: R | A` after `=(mode: W)`).
@@ -1111,7 +1112,7 @@ fn analyze_star_pattern(
 
     // If the value could be one of several variants at runtime, a type check is needed to
     // discriminate the matching variant (and, for a named star, to enforce the name).
-    let needs_type_check = all_sources.len() > 1;
+    let needs_type_check = all_sources.len() > 1 || has_non_tuple_variant(program, value_type_id);
 
     // Create a binding set for each matching field source
     let mut binding_sets = vec![];
@@ -1340,6 +1341,26 @@ fn extract_field_sources(program: &Program, type_id: usize) -> Vec<FieldSource> 
             .flat_map(|&tid| extract_field_sources(program, tid))
             .collect(),
         _ => vec![],
+    }
+}
+
+/// Whether a value of this type may be something without fields at all (an integer, binary, ref,
+/// function, process or resource). Such a value has to be told apart from the tuple variants by a
+/// runtime type check before any field is read.
+fn has_non_tuple_variant(program: &Program, type_id: usize) -> bool {
+    match program.lookup_type(type_id) {
+        Some(Type::Union(type_ids)) => type_ids
+            .iter()
+            .any(|&tid| has_non_tuple_variant(program, tid)),
+        Some(
+            Type::Integer
+            | Type::Binary
+            | Type::Reference
+            | Type::Callable { .. }
+            | Type::Process { .. }
+            | Type::Resource(_),
+        ) => true,
+        _ => false,
     }
 }
 
